@@ -153,6 +153,17 @@ def multi_file_cases(ctx):
     out.append(("whole-file-composite-subdir", {"s.json": {"$id": "http://x/main", "type": "object", "properties": {"owners": {"type": "array", "items": {"$ref": "people/person.json"}, "minItems": 1}}},
                                                 "people/person.json": person}, "s.json", []))
     out.append(("parent-dir", {"s.json": top, "sub/mid.json": mid, "leaf.json": leaf}, "s.json", []))
+    # same-named definitions in two files that differ only in annotations (defaults, titles, descriptions): each reference keeps its own definition's defaults
+    def ep(port, tls, title):
+        return {"type": "object", "title": title, "properties": {"host": {"type": "string"}, "port": {"type": "integer", "default": port, "description": "port %d" % port},
+                                                                 "tls": {"type": "boolean", "default": tls}, "tags": {"type": "array", "items": {"type": "string"}, "default": [title]}}, "required": ["host"]}
+    for nm, fa, fb in (("two-files", "public.json", "admin.json"), ("same-base-name", "a/endpoint.json", "b/endpoint.json")):
+        out.append(("same-definition-name-annotations-differ/" + nm,
+                    {"s.json": {"$id": "http://x/main", "type": "object", "properties": {"public": {"$ref": fa + "#/$defs/Endpoint"}, "admin": {"$ref": fb + "#/$defs/Endpoint"},
+                                                                                     "more": {"type": "array", "items": {"$ref": fb + "#/$defs/Endpoint"}}}, "required": ["public", "admin"]},
+                     fa: {"description": "public", "$defs": {"Endpoint": ep(80, False, "Public endpoint")}}, fb: {"description": "admin", "$defs": {"Endpoint": ep(8443, True, "Admin endpoint")}},
+                     "__docs__": [{"public": {"host": "a"}, "admin": {"host": "b"}}, {"public": {"host": "a", "port": None}, "admin": {"host": "b", "tls": None}, "more": [{"host": "c"}]},
+                                  {"admin": {"host": "b"}, "public": {"host": "a", "port": 1, "tls": True, "tags": []}}]}, "s.json", []))
     return out
 
 
@@ -254,9 +265,10 @@ def run(ctx):
     pairs.append((Case("c10both", both, copy.deepcopy(docsb[:80]), fam="both-definition-blocks", no_model=True),
                   Case("c10bothi", both_inl, copy.deepcopy(docsb[:80]), fam="both-definition-blocks", no_model=True)))
     for mi, (name, files, mainp, rext) in enumerate(multi_file_cases(ctx)):
+        given = files.pop("__docs__", [])
         inl = inline(files[mainp], files, mainp)
         dg = Docs(inl, rng)
-        docs, seen = [], set()
+        docs, seen = [{"doc": d, "cls": "valid", "path": ()} for d in given], set()
         for _k in range(3):
             dg.maximal = (_k == 0)
             base = dg.valid()
